@@ -1,6 +1,7 @@
 package c13
 
 import (
+	"fmt"
 	"testing"
 	"time"
 
@@ -31,7 +32,7 @@ func alpha(r *runner.Run) qcheck.Alpha {
 
 func TestCheck(t *testing.T) {
 	r := runner.Start("C13", "model_checking")
-	if qcheck.HandleReplay(r, nil, []qcheck.LockSpec{{Name: "c13", ScaleCompaction: true}, {Name: "c13-full-reject-retention", ScaleCompaction: true}, {Name: "c13-full-drop-retention", ScaleCompaction: true}, {Name: "c13-churn"}}) {
+	if qcheck.HandleReplay(r, nil, []qcheck.LockSpec{{Name: "c13", ScaleCompaction: true}, {Name: "c13-full-reject-retention", ScaleCompaction: true}, {Name: "c13-full-drop-retention", ScaleCompaction: true}, {Name: "c13-churn"}, {Name: "c13-selectors", ScaleCompaction: true}, {Name: "c13-selectors-mass"}}) {
 		r.Finish()
 	}
 	deadline := r.Deadline(80*time.Second, 14*time.Minute)
@@ -59,6 +60,7 @@ func TestCheck(t *testing.T) {
 		alpha  qcheck.Alpha
 		depth  int
 		prefix int
+		pre    *qcheck.Prefix
 		scaled bool
 	}
 	full := qcheck.Alpha{
@@ -77,6 +79,18 @@ func TestCheck(t *testing.T) {
 	}
 	for pi := range qcheck.RichPrefixes(churn) {
 		focuses = append(focuses, focus{name: "churn", alpha: churn, depth: runner.Pick(r, 3, 4), prefix: pi + 1})
+	}
+	// by-filter selectors: the whole product of the selector's fields (route x state x limit x preview; thorough also
+	// target and before) for the three by-filter operations, from populations in which more messages match than the
+	// limit admits - small ones (3 messages all queued / all dead / all canceled / mixed) for explicit limits, and mass
+	// ones that exceed the default limit (100) and the maximum limit (1000)
+	for _, pre := range selectorPrefixes(selectors(r)) {
+		pre := pre
+		focuses = append(focuses, focus{name: "selectors", alpha: selectors(r), depth: runner.Pick(r, 2, 3), pre: &pre, scaled: true})
+	}
+	for _, n := range massSizes(r) {
+		pre := massPrefix(n)
+		focuses = append(focuses, focus{name: "selectors-mass", alpha: massSelectors(), depth: runner.Pick(r, 2, 3), pre: &pre})
 	}
 	base := len(cfgs) * shards
 	njobs := base + len(focuses)
@@ -97,6 +111,9 @@ func TestCheck(t *testing.T) {
 				pre := qcheck.RichPrefixes(f.alpha)[f.prefix-1]
 				spec.Prefix, spec.PrefixName = pre.Ops, pre.Name
 			}
+			if f.pre != nil {
+				spec.Prefix, spec.PrefixName = f.pre.Ops, f.pre.Name
+			}
 		}
 		res := qcheck.RunLockstep(spec)
 		qcheck.ReportLockstep(r, spec, res)
@@ -107,6 +124,93 @@ func TestCheck(t *testing.T) {
 	r.Assume("the memory store's order-list compaction thresholds (1024 entries, factor 4) are lowered to 2 and 1 through a build-overlay variable so that compactions happen inside the explored histories (they must be unobservable)")
 	r.Assume("clock steps are >= 1 s, so the documented 10 ms lease-sweep granularity of SQLite (C05) is not part of the comparison")
 	r.Assume("arguments are those the Store's callers can construct (lease ids without surrounding blanks on single-id calls, non-blank dead reasons, State unset on enqueue)")
+	sel, mass := selectors(r), massSelectors()
+	r.Set("selector_product", map[string]any{
+		"operations": sel.FilterOps, "selectors_small": len(sel.Filters), "selectors_mass": len(mass.Filters),
+		"start_populations_small": len(selectorPrefixes(sel)), "start_populations_mass": massSizes(r),
+		"by_filter_operations_per_state_small": len(sel.Filters) * len(sel.FilterOps), "by_filter_operations_per_state_mass": len(mass.Filters) * len(mass.FilterOps),
+	})
 	r.Set("rule", "every operation sequence over the alphabet up to the depth, applied to MemoryStore and SQLiteStore in lock step on one clock; compared: error class, counts, item sets with all fields modulo lease-id renaming, conflict multisets, stats, and the full contents after every step; non-trivial = distinct (operation kind, result class) pairs; the subtrees below the first operation are dealt to separate processes, states are de-duplicated per process (the summed state count may count a state once per shard)")
 	r.Finish()
+}
+
+// selectors: the alphabet of the by-filter focus. The by-filter operations carry the full product of the selector's
+// fields; the other operations only move messages between the states the selectors distinguish.
+func selectors(r *runner.Run) qcheck.Alpha {
+	a := qcheck.Alpha{
+		IDs: []string{"a", "b", "c"}, Routes: []string{"/r1", "/r1", "/r2"}, Targets: []string{"t1", "t2", "t1"},
+		Deq: []qcheck.DeqSpec{{Batch: 2, TTL: 2 * sec}}, LeaseOps: []string{"dead"}, MaxHandles: 2,
+		Operator: []string{"cancel"}, FilterOps: []string{"cancelf", "requeuef", "resumef"}, Reads: []string{"stats"},
+	}
+	targets := []string{""}
+	befores := []int64{0}
+	if r.Thorough() {
+		targets = append(targets, "t1")
+		befores = append(befores, qsys.T0+int64(sec))
+		a.Ticks = []time.Duration{2 * sec}
+	}
+	for _, route := range []string{"", "/r1"} {
+		for _, target := range targets {
+			for _, state := range []string{"", qmodel.Queued, qmodel.Leased, qmodel.Dead, qmodel.Canceled} {
+				for _, limit := range []int{0, 1, 2} {
+					for _, before := range befores {
+						for _, preview := range []bool{false, true} {
+							a.Filters = append(a.Filters, qmodel.Filter{Route: route, Target: target, State: state, Limit: limit, Before: before, Preview: preview})
+						}
+					}
+				}
+			}
+		}
+	}
+	return a
+}
+
+// selectorPrefixes: populations of three messages (received one second apart, or all in the same instant) that are all
+// queued, all dead, all canceled, plus the mixed populations of qcheck.RichPrefixes.
+func selectorPrefixes(a qcheck.Alpha) []qcheck.Prefix {
+	spec := func(i int) qmodel.EnvSpec {
+		return qmodel.EnvSpec{ID: a.IDs[i], Route: a.Routes[i%len(a.Routes)], Target: a.Targets[i%len(a.Targets)],
+			Payload: []byte("p-" + a.IDs[i]), Headers: map[string]string{"X-Id": a.IDs[i]}}
+	}
+	e := func(i int) qmodel.Op { return qmodel.Op{Kind: "enq", Envs: []qmodel.EnvSpec{spec(i)}} }
+	tick := qmodel.Op{Kind: "tick", Dur: sec}
+	staggered := []qmodel.Op{e(0), tick, e(1), tick, e(2)}
+	with := func(more ...qmodel.Op) []qmodel.Op { return append(append([]qmodel.Op{}, staggered...), more...) }
+	out := []qcheck.Prefix{
+		{Name: "abc-queued-same-instant", Ops: []qmodel.Op{e(0), e(1), e(2)}},
+		{Name: "abc-queued", Ops: staggered},
+		{Name: "abc-dead", Ops: with(qmodel.Op{Kind: "deq", Batch: 3, TTL: 2 * sec}, qmodel.Op{Kind: "deadb", Leases: []string{"a#1", "b#1", "c#1"}, Reason: "boom"})},
+		{Name: "abc-canceled", Ops: with(qmodel.Op{Kind: "cancel", IDs: []string{"a", "b", "c"}})},
+	}
+	return append(out, qcheck.RichPrefixes(a)...)
+}
+
+// massSelectors: limits around the default (100) and the maximum (1000) of a by-filter selection.
+func massSelectors() qcheck.Alpha {
+	a := qcheck.Alpha{IDs: []string{"a"}, Routes: []string{"/r2"}, Targets: []string{"t1"}, FilterOps: []string{"cancelf", "requeuef", "resumef"}, Reads: []string{"stats"}}
+	for _, limit := range []int{0, -1, 1, 100, 101, 1000, 1001} {
+		for _, preview := range []bool{false, true} {
+			a.Filters = append(a.Filters, qmodel.Filter{Limit: limit, Preview: preview}, qmodel.Filter{Route: "/r1", Limit: limit, Preview: preview})
+		}
+	}
+	return a
+}
+
+// massSizes: one more message than the default limit; thorough also one more than the maximum limit (a step on a
+// thousand rows costs about half a second, so that search is budget-bound).
+func massSizes(r *runner.Run) []int {
+	if r.Thorough() {
+		return []int{101, 1001}
+	}
+	return []int{101}
+}
+
+// massPrefix: n queued messages on one route, stored by one batch; received in pairs one second apart.
+func massPrefix(n int) qcheck.Prefix {
+	envs := make([]qmodel.EnvSpec, n)
+	for i := range envs {
+		id := fmt.Sprintf("m%04d", i)
+		envs[i] = qmodel.EnvSpec{ID: id, Route: "/r1", Target: "t1", Payload: []byte("p"), ReceivedAt: qsys.T0 - int64(i/2)*int64(sec)}
+	}
+	return qcheck.Prefix{Name: fmt.Sprintf("%d-queued", n), Ops: []qmodel.Op{{Kind: "enqb", Envs: envs}}}
 }
